@@ -5,6 +5,7 @@ from sqlfluff.core import (
     Linter,
     SQLLexError,
     SQLParseError,
+    SQLTemplaterError,
     dialect_readout,
 )
 from sqlfluff.core.parser import BaseSegment
@@ -82,7 +83,7 @@ class SqlFluffLineageAnalyzer(LineageAnalyzer):
         violations = [
             str(e)
             for e in parsed.violations
-            if isinstance(e, (SQLLexError, SQLParseError))
+            if isinstance(e, (SQLLexError, SQLParseError, SQLTemplaterError))
         ]
         if violations:
             violation_msg = "\n".join(violations)
